@@ -84,7 +84,9 @@ def _run_impl_chunk(lines, mode="run", pad=0, timeout=120, noquarantine=False, h
                 # and the destructors started in it so far (the model's choice oracle for that call)
                 t = ln.split()
                 if len(t) >= 2 and t[1].isdigit():
-                    res[cur]["abort_order"] = (int(t[1]), t[2] if len(t) > 2 else "")
+                    order = t[2] if len(t) > 2 and re.match(r"^[\d,]+$", t[2]) else ""
+                    res[cur]["abort_order"] = (int(t[1]), order)
+                    res[cur]["abort_flags"] = dict(x.split("=", 1) for x in t[2:] if "=" in x)
             elif cur is not None and ln:
                 res[cur]["lines"].append(ln)
         if rc == 0:
